@@ -19,9 +19,12 @@ Model/MsgWriter.vos Model/MsgWriter.vok Model/MsgWriter.required_vos: Model/MsgW
 Model/NameWire.vo Model/NameWire.glob Model/NameWire.v.beautified Model/NameWire.required_vo: Model/NameWire.v Base/Res.vo Base/Octets.vo Gen/Consts.vo
 Model/NameWire.vio: Model/NameWire.v Base/Res.vio Base/Octets.vio Gen/Consts.vio
 Model/NameWire.vos Model/NameWire.vok Model/NameWire.required_vos: Model/NameWire.v Base/Res.vos Base/Octets.vos Gen/Consts.vos
-Proofs/MsgWriterP.vo Proofs/MsgWriterP.glob Proofs/MsgWriterP.v.beautified Proofs/MsgWriterP.required_vo: Proofs/MsgWriterP.v Base/ListX.vo Model/MsgWriter.vo
-Proofs/MsgWriterP.vio: Proofs/MsgWriterP.v Base/ListX.vio Model/MsgWriter.vio
-Proofs/MsgWriterP.vos Proofs/MsgWriterP.vok Proofs/MsgWriterP.required_vos: Proofs/MsgWriterP.v Base/ListX.vos Model/MsgWriter.vos
+Proofs/MsgWriterP.vo Proofs/MsgWriterP.glob Proofs/MsgWriterP.v.beautified Proofs/MsgWriterP.required_vo: Proofs/MsgWriterP.v Base/ListX.vo Model/MsgWriter.vo Proofs/NameWireP.vo
+Proofs/MsgWriterP.vio: Proofs/MsgWriterP.v Base/ListX.vio Model/MsgWriter.vio Proofs/NameWireP.vio
+Proofs/MsgWriterP.vos Proofs/MsgWriterP.vok Proofs/MsgWriterP.required_vos: Proofs/MsgWriterP.v Base/ListX.vos Model/MsgWriter.vos Proofs/NameWireP.vos
+Proofs/MsgWriterScanP.vo Proofs/MsgWriterScanP.glob Proofs/MsgWriterScanP.v.beautified Proofs/MsgWriterScanP.required_vo: Proofs/MsgWriterScanP.v Base/ListX.vo Model/MsgWriter.vo Proofs/NameWireP.vo Proofs/MsgWriterP.vo
+Proofs/MsgWriterScanP.vio: Proofs/MsgWriterScanP.v Base/ListX.vio Model/MsgWriter.vio Proofs/NameWireP.vio Proofs/MsgWriterP.vio
+Proofs/MsgWriterScanP.vos Proofs/MsgWriterScanP.vok Proofs/MsgWriterScanP.required_vos: Proofs/MsgWriterScanP.v Base/ListX.vos Model/MsgWriter.vos Proofs/NameWireP.vos Proofs/MsgWriterP.vos
 Proofs/NameWireP.vo Proofs/NameWireP.glob Proofs/NameWireP.v.beautified Proofs/NameWireP.required_vo: Proofs/NameWireP.v Base/ListX.vo Model/NameWire.vo Spec/NameWireS.vo Spec/NameRepr.vo
 Proofs/NameWireP.vio: Proofs/NameWireP.v Base/ListX.vio Model/NameWire.vio Spec/NameWireS.vio Spec/NameRepr.vio
 Proofs/NameWireP.vos Proofs/NameWireP.vok Proofs/NameWireP.required_vos: Proofs/NameWireP.v Base/ListX.vos Model/NameWire.vos Spec/NameWireS.vos Spec/NameRepr.vos
